@@ -16,14 +16,28 @@ pub struct Built {
 
 /// env = {"input":value, "syms":[[name,value]...], "funcs":[modelfn...]}, rules = [(name, expr)]
 pub fn build_ruleset(env: &J, rules: Vec<(String, Expr)>) -> Result<Built, String> {
+    build_ruleset_with(env, rules.into_iter().map(|(name, e)| Rule::new(name, BTreeMap::new(), e)).collect())
+}
+
+pub fn build_ruleset_with(env: &J, rules: Vec<Rule>) -> Result<Built, String> {
     let log = Arc::new(Log::default());
     let mut b = ruleset();
-    for (name, e) in rules {
-        b = b.with_rule(Rule::new(name, BTreeMap::new(), e)).map_err(|e| format!("with_rule: {e}"))?;
+    for rule in rules {
+        b = b.with_rule(rule).map_err(|e| format!("with_rule: {e}"))?;
     }
     if let Some(fs) = env["funcs"].as_array() {
-        for f in fs {
-            b = b.with_function(modelfn_from_model(f, log.clone())?).map_err(|e| format!("with_function: {e}"))?;
+        // the first function through with_function, the others boxed through one with_functions call: both entry
+        // points must register the function as it declares itself (name, cacheable)
+        let mut boxed: Vec<Box<dyn UserFunction + Send + Sync + 'static>> = Vec::new();
+        for (i, f) in fs.iter().enumerate() {
+            if i == 0 {
+                b = b.with_function(modelfn_from_model(f, log.clone())?).map_err(|e| format!("with_function: {e}"))?;
+            } else {
+                boxed.push(Box::new(modelfn_from_model(f, log.clone())?));
+            }
+        }
+        if !boxed.is_empty() {
+            b = b.with_functions(boxed).map_err(|e| format!("with_functions: {e}"))?;
         }
     }
     if let Some(ss) = env["syms"].as_array() {
@@ -86,7 +100,20 @@ pub fn replay_prog(case: &J, rep: &mut Report) {
         Ok(v) => v,
         Err(e) => return rep.tool_error(format!("input: {e}")),
     };
-    let built = match build_ruleset(&case["env"], vec![("r".to_string(), e.clone())]) {
+    // One Rule value per distinct program, CLONED into the ruleset of every case that uses it (different inputs,
+    // symbol tables, functions): a rule is data, whatever an earlier evaluation of a clone did must be invisible.
+    thread_local! {
+        static RULES: std::cell::RefCell<std::collections::HashMap<String, Rule>> = std::cell::RefCell::new(std::collections::HashMap::new());
+    }
+    let pkey = case["prog"].to_string();
+    let shared: Rule = RULES.with(|m| {
+        let mut m = m.borrow_mut();
+        if m.len() > 20_000 {
+            m.clear();
+        }
+        m.entry(pkey).or_insert_with(|| Rule::new("r", BTreeMap::new(), e.clone())).clone()
+    });
+    let built = match build_ruleset_with(&case["env"], vec![shared]) {
         Ok(b) => b,
         Err(e) => return rep.tool_error(e),
     };
@@ -183,10 +210,21 @@ fn run_builder(case: &J, log: &Arc<Log>) -> Result<Result<(RuleSet, Vec<Rule>), 
             };
         }
         if let Some(fs) = case["env"]["funcs"].as_array() {
-            for f in fs {
-                b = match b.with_function(modelfn_from_model(f, log.clone())?) {
+            let mut boxed: Vec<Box<dyn UserFunction + Send + Sync + 'static>> = Vec::new();
+            for (i, f) in fs.iter().enumerate() {
+                if i == 0 {
+                    b = match b.with_function(modelfn_from_model(f, log.clone())?) {
+                        Ok(b) => b,
+                        Err(e) => return Ok(Err(format!("with_function refused: {e}"))),
+                    };
+                } else {
+                    boxed.push(Box::new(modelfn_from_model(f, log.clone())?));
+                }
+            }
+            if !boxed.is_empty() {
+                b = match b.with_functions(boxed) {
                     Ok(b) => b,
-                    Err(e) => return Ok(Err(format!("with_function refused: {e}"))),
+                    Err(e) => return Ok(Err(format!("with_functions refused: {e}"))),
                 };
             }
         }
